@@ -469,6 +469,7 @@ def run_case(lab, mon, case, names, sample=False, real_files=None):
     mon.check("run.no_exception_escapes", obs.escaped is None, lambda: W(escaped=repr(obs.escaped)))
     if obs.escaped is not None or not recs:
         return
+    RB.check_identity(mon, obs, case, prefix="json")
     rec = recs[-1]
     nshown = len(shown_scenarios(rec))
     mon.case((RB.strip_case(case), names), nshown >= 2 and len(names) >= 3)
